@@ -1,11 +1,11 @@
 ---------------------------- MODULE Labelmap_mc ----------------------------
-EXTENDS Labelmap, LabelGeom, Json
+EXTENDS LabelmapReads, Json
 
 Key == [sv |-> sv, mp |-> mp, nxt |-> nxt]
 NextEmit == Next /\ PrintT(ToJson([s |-> Key, l |-> last', t |-> Key']))
 SpecEmit == Init /\ [][NextEmit]_vars
 \* one line per distinct state: the expected observation (evaluating Obs' inside the action is pathologically slow in TLC)
-EmitObs == PrintT(ToJson([k |-> Key, d |-> depth, obs |-> Obs]))
+EmitObs == PrintT(ToJson([k |-> Key, d |-> depth, obs |-> Obs, rd |-> Reads]))
 View == <<sv, mp, nxt>>
 
 =============================================================================
